@@ -67,7 +67,7 @@ def assist(project, source, position, filename=None, debug=False):
             names = value.attr_list(ctx)
     else:
         name = get_marked_name(source.tree)
-        if name:
+        if name and hasattr(name, 'flow'):
             names = name.flow.names_at(position)
 
     return prefix, sorted(n for n in names if not marked(n))
